@@ -171,9 +171,18 @@ MUTANTS = [
      "return Control< Rule >::template match< A, M, Action, Control >( in, st... );", "return TAO_PEGTL_NAMESPACE::match< Rule, A, M, Action, Control >( in, st... );", ["C13"], "action<A,R> skips NewAction<R>::match of R"),
     ("m68-must-bypasses-child-control-match", I + "internal/must.hpp",
      "if( !Control< Rule >::template match< A, rewind_mode::optional, Action, Control >( in, st... ) ) {", "if( !TAO_PEGTL_NAMESPACE::match< Rule, A, rewind_mode::optional, Action, Control >( in, st... ) ) {", ["C13"], "must<R> skips Action<R>::match of R"),
+    # contrib adaptors / action-level hooks (fixed-grammar program 8, add_state in program 6)
+    ("m69-rotate-right-is-left", I + "contrib/shuffle_states.hpp",
+     "static constexpr std::size_t value = ( I + S - N ) % S;", "static constexpr std::size_t value = ( I + N ) % S;", ["C08"], "rotate_states_right rotates to the left"),
+    ("m70-control-action-failure-skipped", I + "contrib/control_action.hpp",
+     "         Action< Rule >::failure( const_cast< const ParseInput& >( in ), st... );\n         return false;", "         return false;", ["C08"], "control_action never reports failure to the action"),
+    ("m71-add-state-success-always", I + "contrib/add_state.hpp",
+     "            AddState s;\n            if( TAO_PEGTL_NAMESPACE::match< Rule, A, M, Action, Control >( in, s, st... ) ) {\n               if constexpr( A == apply_mode::action ) {", "            AddState s;\n            if( TAO_PEGTL_NAMESPACE::match< Rule, A, M, Action, Control >( in, s, st... ) ) {\n               if constexpr( true ) {", ["C13"], "add_state delivers success with actions disabled"),
+    ("m72-control-action-start-late", I + "contrib/control_action.hpp",
+     "         Action< Rule >::start( const_cast< const ParseInput& >( in ), st... );\n         if( TAO_PEGTL_NAMESPACE::match< Rule, A, M, Action, Control >( in, st... ) ) {", "         if( TAO_PEGTL_NAMESPACE::match< Rule, A, M, Action, Control >( in, st... ) ) {\n            Action< Rule >::start( const_cast< const ParseInput& >( in ), st... );", ["C08"], "control_action reports start after the rule matched (and not at all on failure)"),
 ]
 
-CHECK_TARGETS = {"C02": ["core"], "C03": ["core"], "C05": ["core", "io"], "C07": ["core", "io"], "C08": ["core", "cov"], "C12": ["tree"], "C13": ["core", "io"], "C18": ["core"]}
+CHECK_TARGETS = {"C02": ["core"], "C03": ["core"], "C05": ["core", "io"], "C07": ["core", "io"], "C08": ["core", "cov", "io"], "C12": ["tree"], "C13": ["core", "io"], "C18": ["core"]}
 
 
 def run(cmd, **kw):
@@ -245,7 +254,9 @@ def cmd_mutants(ids, runs):
         lines = []
         for c, (rc, txt) in res.items():
             v = [l for l in txt.splitlines() if l.startswith("VIOLATION") or l.startswith("  C")][:2]
-            lines.append(f"{c}: exit {rc} " + " | ".join(x.strip()[:200] for x in v))
+            if rc not in (0, 1):
+                v = [" ".join(txt.split())[-700:]]
+            lines.append(f"{c}: exit {rc} " + " | ".join(x.strip()[:700 if rc not in (0, 1) else 200] for x in v))
         status = "CAUGHT" if caught else ("BROKEN" if broken else "MISSED")
         results.append((mid, status, "; ".join(lines)))
         print(f"{mid}: {status} by {caught} expected {checks} ({time.time() - t0:.0f}s) {note}\n    " + "\n    ".join(lines), flush=True)
